@@ -1,6 +1,6 @@
 """Building blocks shared by the checks: symbolic values of the crate's types, views on
 orders, engine set-up."""
-import re
+import re, os
 from . import sym as S
 from . import mir as M
 from . import layout
@@ -15,15 +15,33 @@ ORDER_VARIANTS = ['Standard', 'IcebergOrder', 'PostOnly', 'TrailingStop', 'Pegge
 class Inputs(object):
     """registry of the symbolic input variables of a scenario (for model extraction)"""
 
-    def __init__(self):
+    def __init__(self, fixed=None, qty_mode=None):
         self.vars = []
         self.names = set()
+        self.fixed = fixed
+        # 'full'  : quantities are free 64-bit variables
+        # 'grid:k': quantities range over {0..2^k-1} + {2^63-2^(k-1)..2^63+2^(k-1)-1} + {2^64-2^k..2^64-1}
+        self.qty_mode = qty_mode or os.environ.get('EMIR_QTY', 'grid:4')
+
+    def qty(self, name):
+        """a 64-bit quantity-like input (order quantities, thresholds, match sizes, amend quantities)"""
+        if self.qty_mode == 'full':
+            return self.var(name, 64)
+        k = int(self.qty_mode.split(':')[1])
+        s = S.ZExt(self.var(name + '.lo', k), 64)
+        top = self.var(name + '.top', S.B)
+        mid = self.var(name + '.mid', S.B)
+        return S.Ite(top, S.Sub(S.bv(-1, 64), s),
+                     S.Ite(mid, S.Add(S.bv((1 << 63) - (1 << (k - 1)), 64), s), s))
 
     def var(self, name, sort):
         assert name not in self.names, name
         self.names.add(name)
         v = S.var(name, sort)
         self.vars.append(v)
+        if self.fixed is not None:
+            x = self.fixed.get(name, 0)
+            return S.boolc(x) if sort == S.B else S.bv(x, sort)
         return v
 
 
@@ -35,12 +53,17 @@ def tag_tree(inp, prefix, n):
     return t
 
 
+QTY_FIELDS = ('replenish_threshold', 'replenish_amount.some')
+
+
 def sym_value(L, inp, ty, prefix, fixed=None):
     """fresh symbolic value of Rust type `ty` (as written in the crate sources)"""
     ty = ty.strip()
     fixed = fixed or {}
     info = M.int_info(ty)
     if info:
+        if info[0] == 64 and prefix.endswith(QTY_FIELDS):
+            return inp.qty(prefix)
         return inp.var(prefix, info[0])
     if ty == 'bool':
         return inp.var(prefix, S.B)
@@ -101,11 +124,11 @@ def sym_order(L, inp, prefix, variants=None, oid=None, price=None):
                 fields.append(common[fn])
             elif fn in ('quantity', 'visible_quantity'):
                 if 'disp' not in common:
-                    common['disp'] = inp.var('%s.displayed' % prefix, 64)
+                    common['disp'] = inp.qty('%s.displayed' % prefix)
                 fields.append(common['disp'])
             elif fn == 'hidden_quantity':
                 if 'hid' not in common:
-                    common['hid'] = inp.var('%s.hidden' % prefix, 64)
+                    common['hid'] = inp.qty('%s.hidden' % prefix)
                 fields.append(common['hid'])
             else:
                 fields.append(sym_value(L, inp, ft, '%s.%s.%s' % (prefix, vn, fn)))
